@@ -258,6 +258,39 @@ pub fn replay_tree(_opts: &Opts) -> i32 {
                     if Some(t.secs() as u128) != v.get("secs").and_then(from_digits) { kinds.push("time-secs"); }
                 }
             }
+        } else if let Some(os) = v.get("opts").and_then(|x| x.as_array()) {
+            // the options machine: RunOptions::default() then update(o) per step, state compared after EACH step
+            let exp = v.get("states").and_then(|x| x.as_array()).cloned().unwrap_or_default();
+            if exp.len() != os.len() { kinds.push("bad-vector"); }
+            let r = guarded(&v, || {
+                let mut o = lipe_find_parser::RunOptions::default();
+                let mut states: Vec<Value> = vec![];
+                let mut bad = o.depth || o.threads.is_some();
+                for g in os {
+                    match json_to_expr(g) {
+                        Some(lipe_find_parser::ast::Expression::Global(go)) => { o.update(&go); states.push(opts_to_json(&o)); }
+                        _ => { bad = true; }
+                    }
+                }
+                (states, bad)
+            });
+            match r {
+                Err(_) => kinds.push("panic"),
+                Ok((states, bad)) => {
+                    if bad { kinds.push("bad-vector"); }
+                    if states != exp { kinds.push("options-state"); }
+                    observed = json!({"states": states});
+                }
+            }
+        } else if let Some(ft) = v.get("ftype").and_then(|x| x.as_str()) {
+            match crate::proj::mk_ftype(ft) {
+                None => kinds.push("bad-vector"),
+                Some(t) => {
+                    let b = t.octal().bits() as u64;
+                    observed = json!({"bits": b});
+                    if Some(b) != v.get("bits").and_then(|x| x.as_u64()) { kinds.push("type-bits"); }
+                }
+            }
         } else {
             kinds.push("bad-vector");
         }
